@@ -1,2 +1,6 @@
 -- Root of the `ScyllaVerif` library: every property module (so `lake build` checks all theorems).
+import ScyllaVerif.Props.C03
+import ScyllaVerif.Props.C09
 import ScyllaVerif.Props.C11
+import ScyllaVerif.Props.C16
+import ScyllaVerif.Props.C18
